@@ -48,7 +48,7 @@ var c10Hostile = []string{"&#0;", "&amp;amp;", "&", "(", "\x00", "\x80", "\xbf\x
 
 func genC10Input(t *rapid.T) []byte {
 	var buf bytes.Buffer
-	kind := lib.Weighted(t, []int{25, 25, 20, 10, 10, 10}, "inputKind")
+	kind := lib.Weighted(t, []int{25, 25, 18, 10, 10, 10, 7}, "inputKind")
 	switch kind {
 	case 0: // license text mutated by byte flips / insertions / hostile splices
 		a := assets()
@@ -103,6 +103,11 @@ func genC10Input(t *rapid.T) []byte {
 			buf.WriteString(strings.Repeat("word-\n", lib.IntN(t, 1, 3000, "n")))
 		case 4:
 			buf.WriteString(strings.Repeat("the software is provided as is ", lib.IntN(t, 1, 3000, "n")))
+		}
+	case 6: // no words, but lines the tokenizer treats as copyright notices / dates (they yield pseudo-matches, no tokens)
+		n := lib.IntN(t, 1, 6, "nnotices")
+		for i := 0; i < n; i++ {
+			buf.WriteString(lib.PickStr(t, []string{"Copyright 2020 Google Inc.\n", "// Copyright (c) 2008 The Authors\n", "2020-01-15\n", "copyright 1999, 2000 x\n", "\n", "   \n", "# COPYRIGHT 2003.\n", "***\n", "(c) Copyright 2011 Y"}, "notice"))
 		}
 	case 5: // scenario file with a hostile tail
 		sc := scenarios()
@@ -348,7 +353,7 @@ func isValidUTF8(b []byte) bool {
 
 func TestVerif_C10_Rapid(t *testing.T) {
 	lib.Run(t, lib.Spec{ID: "C10", Part: "structured",
-		Rule: "structure-aware generation: license texts mutated by byte flips, cuts, raw-byte and hostile-fragment splices (entities, NUL, lone continuation bytes, out-of-range sequences, hyphen/newline storms), fragment soups, arbitrary bytes, inputs without any word, 1 MiB lines / newline runs, scenario files with hostile tails; thresholds {0,1e-9,0.01,0.3,0.5,0.7,0.8,0.99,0.999999,1} or drawn in [0,1]; corpora: empty, 1-5 documents (empty, hostile, license, generated), the input itself as a document, full (thresholds >= 0.5); sequence AddContent* -> Match -> MatchFrom -> Normalize -> Match(Normalize) -> late AddContent -> Match; oracle: no panic + public well-formedness predicate; non-trivial = has matches or invalid UTF-8 or '&'; distinct = distinct (threshold, corpus, input hash)",
+		Rule: "structure-aware generation: license texts mutated by byte flips, cuts, raw-byte and hostile-fragment splices (entities, NUL, lone continuation bytes, out-of-range sequences, hyphen/newline storms), fragment soups, arbitrary bytes, inputs without any word, inputs consisting only of copyright-notice / date lines, 1 MiB lines / newline runs, scenario files with hostile tails; thresholds {0,1e-9,0.01,0.3,0.5,0.7,0.8,0.99,0.999999,1} or drawn in [0,1]; corpora: empty, 1-5 documents (empty, hostile, license, generated), the input itself as a document, full (thresholds >= 0.5); sequence AddContent* -> Match -> MatchFrom -> Normalize -> Match(Normalize) -> late AddContent -> Match; oracle: no panic + public well-formedness predicate; non-trivial = has matches or invalid UTF-8 or '&'; distinct = distinct (threshold, corpus, input hash)",
 		New:  func() interface{} { return &c10Case{} }, Gen: c10Gen, Check: c10Check})
 }
 
